@@ -259,6 +259,14 @@ let hier_ops_of (ops : string) : Hierarchy.hier_op list =
     | ["P"] -> Hierarchy.HPop
     | _ -> failwith ("bad hier op " ^ op)) (split_on ';' ops)
 
+let dec_of_n (n : BinNums.coq_N) : string =
+  let ten = n_of_int 10 in
+  let rec go n acc =
+    match n with
+    | BinNums.N0 -> acc
+    | _ -> let (q, r) = BinNat.N.div_eucl n ten in go q (string_of_int (int_of_n r) ^ acc) in
+  match n with BinNums.N0 -> "0" | _ -> go n ""
+
 let hierarchy_obs ?(extra=false) (b : Hierarchy.builder) : string =
   let open Hierarchy in
   let w = get (full_walk b) in
@@ -270,7 +278,7 @@ let hierarchy_obs ?(extra=false) (b : Hierarchy.builder) : string =
       Printf.sprintf "%dS%d:%s:%s:%d:%s" d (int_of_nat i) (hex_of_bytes sc.sc_name)
         (hex_of_bytes (get (scope_full_name (items_fuel b) b i))) (int_of_n sc.sc_tpe)
         (match sc.sc_component with None -> "~" | Some c -> hex_of_bytes c)
-      ^ (if extra then ":" ^ (match sc.sc_decl with None -> "~" | Some (p, l) -> hex_of_bytes p ^ "@" ^ string_of_int (int_of_n l)) ^ ":~" else "")
+      ^ (if extra then ":" ^ (match sc.sc_decl with None -> "~" | Some (p, l) -> hex_of_bytes p ^ "@" ^ dec_of_n l) ^ ":~" else "")
     | IVar i ->
       let v = Stdlib.List.nth b.hb_vars (int_of_nat i) in
       Printf.sprintf "%dV%d:%s:%s:%d:%d:%s:%s:%d" d (int_of_nat i) (hex_of_bytes v.v_name)
@@ -550,14 +558,6 @@ let cmd_serde (args : string list) : string =
            | None -> "accept-unwritable"
            | Some j2 -> if j2 = j then "accept-same" else "accept-differs")))
   | _ -> "BADCASE"
-
-let dec_of_n (n : BinNums.coq_N) : string =
-  let ten = n_of_int 10 in
-  let rec go n acc =
-    match n with
-    | BinNums.N0 -> acc
-    | _ -> let (q, r) = BinNat.N.div_eucl n ten in go q (string_of_int (int_of_n r) ^ acc) in
-  match n with BinNums.N0 -> "0" | _ -> go n ""
 
 (* ---- fsth <debug01> <entries> <datehex> <versionhex> <exponent> ----
    entries: the dependency's hierarchy entry stream as printed by the harness command fsthier *)
